@@ -116,6 +116,12 @@ def struct_templates():
     t.append("def test(a: Qint[2], b: Qint[2], c: Qint[2]) -> bool:\n    return a < b and b < c")
     t.append("def test(a: Qint[2]) -> Qint[4]:\n    return a * a")
     t.append("def test(a: Qint[2], b: Qint[2]) -> Qint[4]:\n    return (a + b) * 2")
+    # a local conditionally re-assigned (in place operators) and returned directly
+    t.append("def test(a: bool, b: bool, c: bool) -> bool:\n    d = a and b\n    if c:\n        d ^= b\n    return d")
+    t.append("def test(a: bool, b: bool, c: bool) -> bool:\n    d = a or b\n    if c:\n        d = d and a\n    return d")
+    t.append("def test(a: Qint[2], b: Qint[2], c: bool) -> Qint[2]:\n    d = a + b\n    if c:\n        d += 1\n    return d")
+    t.append("def test(a: bool, b: bool, c: bool, e: bool) -> bool:\n    d = a ^ b\n    if c:\n        d = d or e\n    else:\n        d = d and e\n    return d")
+    t.append("def test(a: bool, b: bool, c: bool) -> Tuple[bool, bool]:\n    d = a and b\n    f = d\n    if c:\n        d ^= b\n        f = f or a\n    return (d, f)")
     # aliases, a sub-expression next to its own negation, n-ary or under not
     t.append("def test(a: bool, b: bool) -> bool:\n    y = a\n    return (a or y) and b")
     t.append("def test(a: bool, b: bool, c: bool, d: bool) -> bool:\n    return ((a or b or c) and (not (a or b or c))) or d")
